@@ -1,6 +1,7 @@
 """C13 - loading a document adds exactly its triples, whatever its size or prior content (DESIGN.md section 7, C13).
 
-Theorems: coq/Codec13/C13.v.
+Theorems: coq/Codec13/C13.v (chunking, N-Triples, N-Quads, N3 outside known_C13_n3, Turtle statements, format agreement
+partial on RDF/XML, six refutations with witnesses).
 Correspondence: the real loaders of kolibrie/src/sparql_database.rs (parse_ntriples_and_add, parse_nquads_and_add,
 parse_turtle, parse_n3, parse_rdf) against the Gallina model (`KV.Codec13.Run.run`) on the same documents and prior
 databases, observable = lexical quad set before and after every load; the Spec (`triples_of` of the document's
@@ -544,7 +545,7 @@ def has_hash(op):
 
 def classes_of(op, flags):
     """known classes (ids) the document load `op` falls in; flags come from the Coq classifiers"""
-    n3k, recl, n3lit, ttltag = flags
+    n3k, recl, n3lit, ttltag, n3hash = flags
     fmt = op[1]
     out = []
     if fmt in ("nt", "nq") and recl:
@@ -555,7 +556,7 @@ def classes_of(op, flags):
             out.append("C13-n3-multichunk" if nl > 1000 else "C13-n3-nonempty-dictionary")
         if n3lit:
             out.append("C13-n3-literal-quoted")
-        if has_hash(op):
+        if n3hash:
             out.append("C13-n3-hash-in-term")
     if fmt == "ttl" and ttltag:
         out.append("C13-turtle-tagged-literal")
@@ -1211,6 +1212,8 @@ def run(ctx):
             ops = gen_prior(rng, "disjoint" if r == 5 else "sharing", [doc])
             ops[-1][-1] = True
         ops.append(doc)
+        if r == 9:      # a consistent database produced by parse_n3 must accept a later N-Triples document
+            ops.append(["doc", "nt", gen_nt_doc(rng, rng.choice([1, 3, 8]), p_unclean=0.0), True])
         n3.append({"ops": ops, "eol": rng.choice(["\n", "\r\n"])})
     for n in [999, 1000, 1001, 1500, 2001] + ([1999, 2000, 3500] if T else []):
         for rep in range(2 if T else 1):
